@@ -739,6 +739,14 @@ var stdMutators = map[string]int{
 	"maps.Copy": 0, "maps.DeleteFunc": 0, "maps.Insert": 0, "slices.Sort": 0, "slices.SortFunc": 0, "slices.SortStableFunc": 0,
 	"slices.Reverse": 0, "sort.Slice": 0, "sort.SliceStable": 0, "sort.Strings": 0, "sort.Ints": 0, "sort.Float64s": 0, "sort.Sort": 0,
 	"sort.Stable": 0, "reflect.Copy": 0, "clear": 0,
+	// caches and counters: sync.Map / sync.Once / sync/atomic write the memory of their receiver (first argument)
+	"sync.Store": 0, "sync.LoadOrStore": 0, "sync.LoadAndDelete": 0, "sync.Delete": 0, "sync.Swap": 0, "sync.CompareAndSwap": 0,
+	"sync.CompareAndDelete": 0, "sync.Clear": 0, "sync.Do": 0,
+	"atomic.Store": 0, "atomic.Add": 0, "atomic.Swap": 0, "atomic.CompareAndSwap": 0, "atomic.And": 0, "atomic.Or": 0,
+	"atomic.StoreInt32": 0, "atomic.StoreInt64": 0, "atomic.StoreUint32": 0, "atomic.StoreUint64": 0, "atomic.StorePointer": 0, "atomic.StoreUintptr": 0,
+	"atomic.AddInt32": 0, "atomic.AddInt64": 0, "atomic.AddUint32": 0, "atomic.AddUint64": 0, "atomic.AddUintptr": 0,
+	"atomic.SwapInt32": 0, "atomic.SwapInt64": 0, "atomic.SwapUint32": 0, "atomic.SwapUint64": 0, "atomic.SwapPointer": 0,
+	"atomic.CompareAndSwapInt32": 0, "atomic.CompareAndSwapInt64": 0, "atomic.CompareAndSwapUint32": 0, "atomic.CompareAndSwapUint64": 0, "atomic.CompareAndSwapPointer": 0,
 }
 
 func (P *Prog) writeSites(fn *ssa.Function) []writeSite {
